@@ -61,6 +61,17 @@ R2 = {
     "C02_5": "string literals with blanks in them in the end-to-end stream (failing input instead of only a char-level disagreement)",
     "C04_3": "pattern stream: key_match as domain / role-name matching function, pattern assignments revoked between queries, fresh-enforcer oracle (was caught by C14 only)",
     "C11_5": "file-failure stream: file adapters, file gone / short grouping line, is_filtered() among the compared queries (was caught by C12 only); shows F26b under C11",
+    "C07_7": "the priority histories run on a SECOND policy definition (p without, p2 with a priority field) through an enforce context; found F29",
+    "C07_9": "subject priority loaded the bulk way (auto-build off, load_policy, one explicit build_role_links)",
+    "C20_8": "calls on the second role definition g2 (valid and too short) in C20's histories; a call that raises is now judged too (no notification)",
+    "C20_9": "partial-watcher stream: watchers offering only some of the operation-specific callbacks",
+    "C12_7": "quoted values with commas in the generated policy files",
+    "C15_7": "domain policies reached through a history: a rule arriving twice in one batch and then revoked, with the questions asked before (per-domain manager in use)",
+    "C15_9": "domain policies reached through a history: the same (user, role) pair held in two domains and revoked in one",
+    "C19_8": "filtered-adapter stream: FastEnforcer and Enforcer on FilteredFileAdapters with failing filtered loads (wrong filter type / file away)",
+    "C01_8": "flag-environment stream: model / policy / adapter / watcher reloaded or replaced while the enforcer is disabled",
+    "C11_7": "file-failure stream: an unparsable line after a prefix of good rules (failure WHILE reading)",
+    "C05_7": "conditional-domain stream: link conditions registered / re-parameterised for other domains (g = _, _, _, (_, _))",
     "C20_5": "AsyncEnforcer with a watcher whose operation-specific callbacks are plain functions; callbacks record malformed arguments instead of failing",
 }
 for sid in sorted(os.listdir(os.path.join(VERIF, "seeded"))):
